@@ -897,3 +897,13 @@ fire('C15', 'source-policy-name-never-resolved', 'C15.R7', 'out_edge_selection-w
      lambda p: M.delete_stmt(p, N_SRC, 'Source.reset', lambda n: isinstance(n, ast.Assign) and 'get_edge_selector' in ast.unparse(n)))
 fire('C15', 'source-range-check-off-by-one', 'C15.R3', 'out-range-check',
      lambda p: M.replace_node(p, N_SRC, 'Source.behaviour', lambda n: isinstance(n, ast.Compare) and ast.unparse(n) == 'out_edge_index_to_put < 0', 'out_edge_index_to_put <= 0'))
+fire('C20', 'reqstore-level-stamp-not-initialised', 'C20.R1', 'initialised-before-read',
+     lambda p: M.delete_stmt(p, S_RS, 'ReservableReqStore.__init__', M.assign_to('self._last_level_change_time')))
+fire('C13', 'continuous-stalled-kind-swapped-after-ready', 'C13.R3', 'covers-empty-moving-stalled',
+     lambda p: M.replace_node(p, E_CC, 'ConveyorBelt.behaviour', lambda n: isinstance(n, ast.Attribute) and ast.unparse(n) == 'self.accumulating', 'not self.accumulating', which=1))
+fire('C18', 'slotted-store-average-not-published', 'C18.R3', 'integrate-previous-level',
+     lambda p: M.delete_stmt(p, S_SLOT, 'BeltStore._update_time_averaged_level', M.assign_to('self.time_averaged_num_of_items_in_store')))
+fire('C18', 'buffer-put-does-not-republish', 'C18.R7', 'Buffer.put',
+     lambda p: M.delete_stmt(p, E_BUF, 'Buffer.put', M.stmt_calling('self._buffer_stats_collector')))
+fire('C18', 'fleet-get-does-not-republish', 'C18.R7', 'Fleet.get',
+     lambda p: M.delete_stmt(p, E_FLT, 'Fleet.get', M.stmt_calling('self._fleet_stats_collector')))
